@@ -3,6 +3,7 @@
 mod ctl;
 mod dynh;
 mod hist;
+mod loader;
 mod lock;
 mod raw;
 mod sched;
@@ -51,6 +52,7 @@ fn main() {
     "chan-sched" => chan_sched(&args),
     "topic-seq" => topic_seq(&args),
     "lock-seq" => lock_seq(&args),
+    "loader-sched" => loader_sched(&args),
     "lock-sched" => lock_sched(&args),
     _ => {
       eprintln!("usage: fv <chan-seq> [--key value]...");
@@ -262,6 +264,39 @@ fn lock_sched(a: &Args) {
       strategy: strategies[ru % strategies.len()].clone(),
     };
     let st = lock::run_sched(&cfg);
+    n += 1;
+    steps += st.outcome.steps;
+    if !st.outcome.blocked.is_empty() && !st.outcome.all_done { blocked += 1; }
+    if st.outcome.stuck { stuck += 1; }
+    if st.outcome.step_limit { step_limit += 1; }
+    leaked += st.leaked as u64;
+    for r in &st.records { writeln!(w, "{r}").unwrap(); }
+  }
+  w.flush().unwrap();
+  println!("{}", serde_json::json!({"histories": n, "blocked": blocked, "stuck": stuck, "step_limit": step_limit, "leaked_threads": leaked, "steps": steps}));
+}
+
+fn loader_sched(a: &Args) {
+  let runs = a.num("runs", 20);
+  let seed = a.num("seed", 1);
+  let strategies = a.list("strategies", "random,pct,pct5");
+  let kf = a.list("kf", "");
+  let out = a.get("out", "/dev/stdout");
+  let mut w = std::io::BufWriter::new(std::fs::File::create(&out).expect("create out"));
+  let (mut n, mut blocked, mut stuck, mut leaked, mut steps, mut step_limit) = (0u64, 0u64, 0u64, 0u64, 0u64, 0u64);
+  for r in 0..runs {
+    let ru = r as usize;
+    let cfg = loader::Cfg {
+      threads: if ru % 5 == 4 { 1 } else { 2 + (ru / 2) % 2 },
+      keys: 1 + (ru as u32 / 3) % 2,
+      fetches: if ru % 5 == 4 { 6 } else { 1 + (ru / 4) % 2 },
+      shards: 1 + (ru / 7) % 2,
+      seed: seed.wrapping_mul(1_000_003).wrapping_add(r),
+      strategy: strategies[ru % strategies.len()].clone(),
+      invalidate: true,
+      kf: kf.clone(),
+    };
+    let st = loader::run(&cfg);
     n += 1;
     steps += st.outcome.steps;
     if !st.outcome.blocked.is_empty() && !st.outcome.all_done { blocked += 1; }
